@@ -152,3 +152,77 @@ def run_choice(
             on_step(wid, kind)
     run_choice.last_path_states = path_states  # type: ignore[attr-defined]
     return steps
+
+
+def run_timed(
+    coros: dict[str, Any],
+    max_steps: int = 4000,
+    on_step: Callable[[str, str], None] | None = None,
+    start_jitter: float = 0.01,
+) -> int:
+    """
+    Drive the coroutines on a virtual clock whose instants are symbolic reals.
+
+    A suspension ``Suspend(kind, delay)`` wakes at ``now + delay``; the delay of an
+    execution is a symbolic real supplied by the harness (0 < d < test_timeout), back-off
+    sleeps carry the concrete delay the code computed.  The next event is the earliest
+    wake-up; which one that is, is decided by the solver (one path = one feasible order of
+    events for all durations consistent with it).  Waiting workers are tried first and
+    their "still earlier" side is explored first, so long executions come first.
+    """
+    eng = symx.engine()
+    now: Any = z3.RealVal(0)
+    wake: dict[str, Any] = {}
+    kinds: dict[str, str] = {}
+    for i, w in enumerate(coros):
+        j = z3.Real(eng.fresh(f"start_{w}"))
+        eng.assume(z3.And(j >= 0, j <= start_jitter), check=False)
+        wake[w] = j
+        kinds[w] = "ready"
+    live = list(coros)
+    steps = 0
+    while live:
+        order = sorted(live, key=lambda w: 1 if kinds[w] == "test" else 0)
+        chosen = None
+        for idx, c in enumerate(order):
+            others = [o for o in order if o != c and o not in order[:idx]]
+            if not others:
+                chosen = c
+                break
+            cond = z3.And(*[wake[c] <= wake[o] for o in others])
+            if eng.decide(cond, f"next_event_{steps}_{c}", prefer=True):
+                chosen = c
+                break
+        assert chosen is not None
+        wid = chosen
+        now = wake[wid]
+        steps += 1
+        if steps > max_steps:
+            raise StepBound(f"more than {max_steps} scheduler steps")
+        try:
+            y = coros[wid].send(None)
+            while isinstance(y, Suspend) and y.kind == "status-wait":
+                y = coros[wid].send(None)
+        except StopIteration:
+            live.remove(wid)
+            kinds[wid] = "done"
+            if on_step:
+                on_step(wid, "done")
+            continue
+        except (symx.Abort, symx.Violation, symx.Inconclusive):
+            raise
+        except Exception as e:
+            raise WorkerCrash(wid, e) from e
+        kind = y.kind if isinstance(y, Suspend) else "other"
+        delay = y.delay if isinstance(y, Suspend) else 0
+        if isinstance(delay, (symx.SymReal, symx.SymInt)):
+            dz = delay.z
+        elif isinstance(delay, z3.ExprRef):
+            dz = delay
+        else:
+            dz = z3.RealVal(repr(float(delay)))
+        wake[wid] = now + dz
+        kinds[wid] = kind
+        if on_step:
+            on_step(wid, kind)
+    return steps
